@@ -1,4 +1,4 @@
-(* go-sha256: b5db5cc5a5bc6c46f91844bfbb80c3e7af49b0ca45737a8f5360b4c50e80939c *)
+(* go-sha256: da2d168c8ec65950963d9e7dcf0335ed382de027384ca1da8522ee9c8bd1292e *)
 (* deps: trend_Rma trend_Sma trend_NewSma trend_Sma_Compute *)
 Definition trend_Rma_Compute (r : trend_Rma) (c : (expr I T)) : (expr I T) :=
   let sma := trend_NewSma in
